@@ -1,5 +1,7 @@
 import FteikVerif.Generated.KCommon
+import FteikVerif.Generated.KSweep2
 import FteikVerif.Generated.KSolver2
+import FteikVerif.Generated.KSweep3
 import FteikVerif.Generated.KSolver3
 import FteikVerif.Generated.KInterp
 import FteikVerif.Generated.KVInterp
